@@ -29,7 +29,7 @@ class Profile(dict):
         p_vmerge=0.3, p_gridspan=0.3, p_header_rows=0.3, p_nested_table=0.15, p_cross_par_field=0.04,
         style_map=0.5, separators=False, bang=0.1, markdown=0.0,
         optional_absent=0.15,   # probability that an optional part (styles, numbering, content types, rels) is absent
-        p_embedded_map=0.1,
+        p_embedded_map=0.1, p_tstyle=0.4,
     )
 
     def __missing__(self, k):
@@ -498,7 +498,7 @@ class DocGen:
             row_children = ([el("w:trPr", [], trpr)] if (trpr or rng.random() < 0.3) else []) + cells
             rows.append(el("w:tr", [], row_children))
         tblpr = []
-        if rng.random() < 0.4:
+        if self.p("p_tstyle"):
             if self.p("p_dangling_style"):
                 tblpr.append(el("w:tblStyle", [("w:val", "NoSuchTable")]))
                 self.hit("dangling-tstyle")
